@@ -650,6 +650,10 @@ def run(index: RepoIndex, rep) -> None:
 
     one_object_per_cell(index, rep, 'C03.R8')
     shared_mutable_constants(index, rep, 'C03.R8')
+    # ... nor do the factories put anything consumable (an iterator) or altered into the
+    # keyword arguments they bind
+    from .c17 import factory_rules
+    factory_rules(index, rep, 'C03.R9')
     rep.rule('C03.R10', 'registered component names are bound once: what an existing '
              'environment looks up by name cannot change when another environment registers '
              'its own functions', floor=2)
